@@ -1,6 +1,6 @@
 """C09 — failed endpoints fail fast and are used again once reachable.
 
-Three components:
+Four components:
   resurrector  the real ResurrectorSink over harness channels (harness/c09res.py), predictive,
                turn-by-turn on the virtual loop, reachability histories with virtual minutes of back-off;
   respool      the real ResurrectorSink over the real WatermarkPoolSink and the real serial Thrift
@@ -8,7 +8,12 @@ Three components:
                transport -> pool -> resurrector (finding F5);
   heap9        the real HeapBalancerSink over harness channels (harness/c09heap.py, driver harness/heaprun.py):
                the balancer's down list — a member whose channel is Open again is marked up by the next
-               dispatch, whatever else is listed and in whatever order members went down and came back.
+               dispatch, whatever else is listed and in whatever order members went down and came back;
+  resmux       the chain the ThriftMux builder assembles below the balancer — the real ResurrectorSink over the real
+               ThriftMux SocketTransportSink (no pool in between) — on the step-controlled socket harness/stepnet.py
+               (harness/c09mux.py): connects accepted / refused, every write and read of the connection (single, in
+               bursts, and a fault between the dispatch of the handshake's Rping and the resumption of the opener),
+               the clock with the retry sleep, the 5 s ping helper and the ping loop, traffic, Close() (finding F16).
 """
 from lib import vfmt  # noqa
 
@@ -16,15 +21,37 @@ PROPERTY = 'C09'
 COMPONENT = 'resurrector'
 QUICK = dict(gen=3000, timeout=240, exhaustive_r=3)
 THOROUGH = dict(gen=200000, exhaustive_r=4)
+# constants the ThriftMux chain model shares with the source: re-read from the working tree on every run and checked
+# by the Lean kernel against the model (`example : <model constant> = <value> := by decide`)
+SOURCE_IMPORTS = ['ScalesModel.Adapter.ResMux']
+SOURCE_CONSTANTS = {
+    'Scales.ResMux.pingTimeout': (
+        'import scales.thriftmux.sink as tms, stepnet',
+        'round(tms.SocketTransportSink(stepnet.StepSocket("h", 1), "svc")._ping_timeout * 1e6)'),
+    'Scales.ResMux.defaultCfg.init': (
+        'import scales.resurrector as rs',
+        'round(rs.ResurrectorSink.Builder().sink_properties.initial_wait_interval * 1e6)'),
+    'Scales.ResMux.defaultCfg.maxW': (
+        'import scales.resurrector as rs',
+        'round(rs.ResurrectorSink.Builder().sink_properties.max_wait_interval * 1e6)'),
+}
 HEAP_SHARE = 0.2        # share of generated scripts for component heap9
-TRUSTED = ['harness channels standing for the resurrector\'s next sink (harness/c09res.py): Open() follows the '
+MUX_SHARE = 0.3         # share of generated scripts for component resmux (harness/c09mux.py)
+TRUSTED = ['resmux: step-controlled socket harness/stepnet.py standing for the network underneath the real transport (one '
+           'sendall / recv_into is atomic; a connect completes or is refused at once); the timers of the implementation are '
+           'read off the virtual loop (harness/vloop.py) and the clock never jumps one; random.randint of the ping loop is '
+           'replaced by the period of the script (30-40 s); request ids stand for tags (C11: tags of requests in flight are distinct)',
+           'harness channels standing for the resurrector\'s next sink (harness/c09res.py): Open() follows the '
            'scripted reachability, the fault signal is raised by the script',
            'fake sockets standing for the network (harness/fakenet.py)',
            'logging proxy for the name `gevent` inside scales.resurrector (sleep durations, spawned greenlets)',
            'the back-off waits are computed by the real _TryResurrect and passed to the model as the table defining f',
            'heap9: harness channels/server set standing for the balancer\'s next sinks (harness/mocks.py); the channel '
            'state the balancer reads is set by the script; random.randint drawn by __Put is recorded and passed to the model']
-ASSUMPTIONS = ['initial_wait <= max_wait and w <= w ** exponent for the configured values (checked on the '
+ASSUMPTIONS = ['resmux: observations are taken at quiescence (one stimulus, then a full drain of the callback list); Open() is '
+               'called once and first, Close() once; I/O outcomes are only given to a greenlet that is blocked in that call; '
+               'requests carry no deadline (C12); one connection at a time',
+               'initial_wait <= max_wait and w <= w ** exponent for the configured values (checked on the '
                'table computed by the real code: it must grow until capped; configurations with initial_wait <= 1 s are outside the claim)',
                'float arithmetic of the back-off is not modelled: waits are compared in integer microseconds',
                'a channel is not re-opened after Close() (the balancers create a new sink instead)',
@@ -32,15 +59,21 @@ ASSUMPTIONS = ['initial_wait <= max_wait and w <= w ** exponent for the configur
                'the recovery bound is stated from the later of: endpoint reachable, last pending connect resolved',
                'heap9: channel states change only between balancer calls (gevent is cooperative); fewer than 2^31-1 '
                'dispatches in the history (theorem hypothesis, part of the reported wf)']
-RULE = ('scripts drawn from the seeded generators of the three components; distinct = distinct (cfg, op list); '
+RULE = ('scripts drawn from the seeded generators of the four components; distinct = distinct (cfg, op list); '
         'non-trivial = the endpoint went down at least once (fault delivered or connect refused) and at least one '
         'of: a retry, a hang, a close while down, a stale fault, recovery; for heap9: a member was marked down and '
-        'at least one of: a member marked up again, two members listed at once, a listed member removed')
+        'at least one of: a member marked up again, two members listed at once, a listed member removed; for resmux: the '
+        'connection went down and at least one of: a retry, recovery, three back-off steps, the cap, Close() while down, a '
+        'burst or race fault, ping silence; resmux exhaustive: 19 phases (first handshake, open connection, reconnection '
+        'handshake) x 14 faults x 2 continuations + 64 outcome sequences of three consecutive attempts')
 
 CFGS = [[5, 60, 1.2], [5, 60, 1.2], [2, 30, 1.5], [3, 10, 2], [1.5, 20, 1.3], [10, 10, 1.2], [4, 45, 1.1]]
 
 
 def gen_script(rng, tier):
+    if rng.random() < MUX_SHARE:
+        import c09mux
+        return c09mux.gen_script(rng, tier)
     if rng.random() < HEAP_SHARE:
         import c09heap
         return c09heap.gen_script(rng, tier)
@@ -159,12 +192,21 @@ def exhaustive(tier, shard, shards):
     import c09heap
     for s in c09heap.exhaustive(tier, shard, shards):
         yield s
+    # the ThriftMux chain: a fault of every kind at every point of the handshakes, of traffic and of the retry sleep
+    import c09mux
+    for s in c09mux.exhaustive(tier, shard, shards):
+        yield s
 
 
 def shrink(script):
     if script.get('kind') == 'heap':
         import c09heap
         for s in c09heap.shrink(script):
+            yield s
+        return
+    if script.get('kind') == 'mux':
+        import c09mux
+        for s in c09mux.shrink(script):
             yield s
         return
     ops = script['ops']
@@ -186,6 +228,9 @@ def run_script(script):
     if script.get('kind') == 'pool':
         import c09pool
         return c09pool.run_script(script)
+    if script.get('kind') == 'mux':
+        import c09mux
+        return c09mux.run_script(script)
     import c09res
     return c09res.run_script(script)
 
@@ -194,6 +239,9 @@ def nontrivial(case):
     if case.get('comp') == 'heap9':
         import c09heap
         return c09heap.nontrivial(case)
+    if case.get('comp') == 'resmux':
+        import c09mux
+        return c09mux.nontrivial(case)
     t = set(case.get('tags', []))
     went_down = bool(t & {'went-down', 'connect-refused', 'fault-mid-traffic'})
     return went_down and bool(t & {'retry', 'hang-resolved-ok', 'hang-resolved-fail', 'close-while-down',
